@@ -87,7 +87,10 @@ class C07:
         if kind == "provides":
             return {"c": "provides", "n": rng.choice(STRS)}
         if kind == "requires":
-            return {"c": "requires", "n": rng.choice(STRS), "m": self.meta(rng)}
+            call = {"c": "requires", "n": rng.choice(STRS), "m": self.meta(rng)}
+            if rng.random() < 0.3:      # Require::metadata called more than once: defaults first, then the final table
+                call["m0"] = [self.meta(rng) for _ in range(rng.randint(1, 2))]
+            return call
         return {"c": "or"}
 
     def gen(self, rng, tier):
@@ -137,6 +140,8 @@ class C07:
             for x in h["calls"]:
                 if "m" in x:
                     x["m"] = jtree(x["m"])
+                if "m0" in x:
+                    x["m0"] = [jtree(m) for m in x["m0"]]
         elif c["kind"] == "launch":
             calls = []
             for x in c["calls"]:
